@@ -493,13 +493,13 @@ class permutation_test:
                     cluster_results[i]["perm_size_values"] = np.array(cluster_results[i]["perm_size_values"])
                     cluster_results[i]["perm_size_values"].sort()
                     cluster_results[i]["perm_maxsize_values"].sort()
-                    cluster_results[i]["size_p_values"] = 1 - np.searchsorted(cluster_results[i]["perm_size_values"], cluster_results[i]["size_values"])/float(cluster_results[i]["expected_number_of_clusters"])
+                    cluster_results[i]["size_p_values"] = 1 - np.searchsorted(cluster_results[i]["perm_size_values"], cluster_results[i]["size_values"])/float(len(cluster_results[i]["perm_size_values"]))
                     cluster_results[i]["size_Corr_p_values"] = 1 - np.searchsorted(cluster_results[i]["perm_maxsize_values"], cluster_results[i]["size_values"])/float(nmagic)
                 if "Fisher" in cluster_stats:
                     cluster_results[i]["perm_Fisher_values"] = np.array(cluster_results[i]["perm_Fisher_values"])
                     cluster_results[i]["perm_Fisher_values"].sort()
                     cluster_results[i]["perm_maxFisher_values"].sort()
-                    cluster_results[i]["Fisher_p_values"] = 1 - np.searchsorted(cluster_results[i]["perm_Fisher_values"], cluster_results[i]["Fisher_values"])/float(cluster_results[i]["expected_number_of_clusters"])
+                    cluster_results[i]["Fisher_p_values"] = 1 - np.searchsorted(cluster_results[i]["perm_Fisher_values"], cluster_results[i]["Fisher_values"])/float(len(cluster_results[i]["perm_Fisher_values"]))
                     cluster_results[i]["Fisher_Corr_p_values"] = 1 - np.searchsorted(cluster_results[i]["perm_maxFisher_values"], cluster_results[i]["Fisher_values"])/float(nmagic)
                 cluster_results[i]["expected_voxels_per_thresh"] /= float(nmagic)
                 cluster_results[i]["expected_number_of_clusters"] /= float(nmagic)
@@ -517,9 +517,10 @@ class permutation_test:
                     perm_Fisher_p_values = np.zeros((nregions,nmagic),float)
                     for j in range(nregions):
                         I = np.argsort(region_results[i]["perm_Fisher_values"][j])
-                        perm_Fisher_p_values[j][I] = 1 - np.arange(1,nmagic+1)/float(nmagic)
-                    perm_min_Fisher_p_values = np.sort(perm_Fisher_p_values.min(axis=0))
-                    region_results[i]["Fisher_Corr_p_values"] = 1 - np.searchsorted(-perm_min_Fisher_p_values,-region_results[i]["Fisher_p_values"])/float(nmagic)
+                        perm_Fisher_p_values[j][I] = 1 - np.arange(nmagic)/float(nmagic)
+                    # searchsorted needs an ascending array
+                    neg_perm_min_Fisher_p_values = np.sort(-perm_Fisher_p_values.min(axis=0))
+                    region_results[i]["Fisher_Corr_p_values"] = 1 - np.searchsorted(neg_perm_min_Fisher_p_values,-region_results[i]["Fisher_p_values"])/float(nmagic)
         voxel_results = {'p_values':p_values/float(nmagic),
                          'Corr_p_values':Corr_p_values/float(nmagic),
                          'perm_maxT_values':perm_maxT_values}
